@@ -454,6 +454,16 @@ def run_fold(case):
     for cid, batches, cin in clients:
       yield ext[cid], (iter(batches) if case['batches_as'] == 'iterator' else batches), cin
 
+  if case.get('abandoned_run') and clients:
+    # An earlier run of the SAME function over the same clients was given up
+    # after its first results (a consumer that raised, a `break`): what the
+    # next run yields is decided by its own arguments alone.
+    it = iter(func(shared, [(ext[cid], list(batches), cin) for cid, batches, cin in clients]))
+    for _ in range(case['abandoned_run']):
+      next(it, None)
+    if case['abandoned_run'] % 2 and hasattr(it, 'close'):
+      it.close()
+    del it
   arg = client_tuples() if case['clients_as'] == 'generator' else list(client_tuples())
   got = list(func(shared, arg))
   bad_ids = [item[0] for item in got if isinstance(item, tuple) and item and
@@ -562,6 +572,8 @@ def fold_labels(case):
     ls.append('state_dtype_changes_at_first_step')
   if case.get('second_call'):
     ls.append('second_call_same_shared_container')
+  if case.get('abandoned_run'):
+    ls.append('after_an_abandoned_run_of_the_same_function')
   step_special = program_step_special(prog)
   init_special = program_init_special(prog)
   if step_special:
@@ -745,6 +757,7 @@ def fold_strategy(draw, tier):
                  'g': _digits(draw, 4, -2, 2)},
       'clients': clients,
       'second_call': draw(st.integers(0, 2)) == 0,
+      'abandoned_run': draw(st.sampled_from([0, 0, 0, 1, 2])),
   }
 
 
